@@ -343,4 +343,6 @@ def build(S):
 
 
 def post(S):
-    pass
+    from bounded import gridrun
+
+    gridrun.run(S, ["metric_vs_displacements", "g23_vs_zshift", "zshift_halfcell"], FN_METRIC, name="measured displacements / stored zShift vs metric components on generated grids")
